@@ -36,7 +36,12 @@ FLOORS = {"quick": {"histories": 6000, "callbacks_matched": 40000, "expiries_on_
 
 FOREVER = 0xFFFFFF
 TTLS = (1, 1, 2, 2, 3, 3, 0xFFFFFE, FOREVER)
-ADDRS = (("10.0.1.1", 30490), ("10.0.1.1", 30491))  # same host, other port
+# same host, other port; an IPv6 peer whose socket address carries a flow label and a scope id
+ADDRS = (("10.0.1.1", 30490), ("10.0.1.1", 30491), ("fe80::91", 30490, 5, 2))
+
+
+def _ep(a):
+    return refwire.ep4(a[0], 4000) if ":" not in a[0] else refwire.ep6(a[0], 4000)
 NKEYS = 3
 
 
@@ -281,7 +286,7 @@ class Subscribes:
         self.prot.datagram_received(net.sd_bytes(entries, sid, reboot=fl), ADDRS[a], False)
 
     def refresh(self, slot, ttl):
-        self._send(slot[1], [net.subscribe(0x2000, 1, 1, slot[0] + 1, ttl, o1=[refwire.ep4(ADDRS[slot[1]][0], 4000)])])
+        self._send(slot[1], [net.subscribe(0x2000, 1, 1, slot[0] + 1, ttl, o1=[_ep(ADDRS[slot[1]])])])
 
     def refresh_rejected(self, slot, ttl):
         self.reject.add(slot)
@@ -291,7 +296,7 @@ class Subscribes:
             self.reject.discard(slot)
 
     def stop(self, slot):
-        self._send(slot[1], [net.subscribe(0x2000, 1, 1, slot[0] + 1, 0, o1=[refwire.ep4(ADDRS[slot[1]][0], 4000)])])
+        self._send(slot[1], [net.subscribe(0x2000, 1, 1, slot[0] + 1, 0, o1=[_ep(ADDRS[slot[1]])])])
 
     def stop_all(self, a):
         self.sess[a].reboot()
